@@ -188,7 +188,8 @@ ParkedNotWritten ==
 AwakeWrittenUnchanged ==
     [][ (ev_.k = "send" /\ ev_.cmd = C_SET /\ obs'.out.k = "ok"
          /\ ~(ev_.buf /\ ev_.n \in DOMAIN st.nodes /\ st.nodes[ev_.n].sl))
-          => (obs'.react = <<MsgOf(ev_)>> /\ st'.setbuf = st.setbuf) ]_vars
+          => (obs'.react = <<MsgOf(ev_)>> /\ DOMAIN st'.setbuf = DOMAIN st.setbuf
+              /\ \A k \in DOMAIN st.setbuf : st'.setbuf[k].p = st.setbuf[k].p) ]_vars
 WakeReleasesExactlyThatNode ==
     [][ IsRecv =>
           /\ \A m \in obs'.rel \cup obs'.relFail : m.n = ev_.n
